@@ -47,6 +47,7 @@ LEVEL["decided"] += ' (R14.7) no finally block of the unwind can replace its out
 LEVEL["decided"] += " (R14.8) callbacks keep the keyword arguments they were registered with (R03.13, shared); (R14.9) a stack can be closed again after a close that ended with an exception: exits registered in between run (evaluated as a history on the model with the stack's own fields)."
 LEVEL["decided"] += " (R14.10) awaitify's wrapper cannot intercept and retry a failing exit (C06's census on _core, shared); force_async is applied by awaitify itself or to a synchronous protocol method only."
 LEVEL["technique"] += "; re-close history on the model with the stack's own fields"
+LEVEL["decided"] += ' (R14.14) every registration gets a wrapper of its own that decides sync / async on the result of the call (adapter table R03.3, shared).'
 LEVEL["decided"] += ' (R14.11) what push() registers for each kind of argument (async exit, sync context manager, both - the asynchronous protocol wins -, plain callable, neither); (R14.12) an exit registered by an exit during the unwind runs in that unwind, once, and nothing is left in the stack; (R14.13) callback() takes the stack and the callback positional-only.'
 LEVEL["decided"] += ' R14.9 also: aclose() hands every exit (None, None, None); R14.5 accepts a fourth form of the registered runner, an object of a private class with a coroutine __call__, under the same obligations.'
 
@@ -205,6 +206,13 @@ def run(ctx) -> None:
     ctx.rule("R14.13", "callbacks get their arguments whatever their names: callback(cb, *args, **kwargs) takes itself and the "
                        "callback positional-only, as contextlib's stack does (a keyword `callback=` or `self=` belongs to cb)")
     keywords_cannot_collide(ctx, "R14.13", ctx.unit("contextlib.ExitStack.callback"), "the callback")
+    # every registered exit is called through the adapter for callables: whether its result is awaited is decided on the result
+    # of that very call by a wrapper of its own (a wrapper shared between registrations decides the second exit by the first)
+    from . import c03 as _c03
+    from .common import Relabel as _Rel
+    ctx.rule("R14.14", "each registered exit is awaited exactly if what it returned is awaitable: awaitify hands every registration "
+                       "a wrapper of its own that decides on its first call's result (adapter table R03.3, shared)")
+    _c03.r03_3_awaitify(_Rel(ctx, "R14.14"))
     ctx.floor("registration_sites", 3)
     ctx.floor("push_cells", 5)
     ctx.floor("unwind_scenarios", 312)
